@@ -119,6 +119,42 @@ def data_of(x):
 def finite(*arrs):
     return all(np.all(np.isfinite(np.asarray(a, dtype=float))) for a in arrs)
 
+# ------------------------------------------------------------------ compiled code in a child process
+def isolated(fn, *args):
+    """fn(*args) evaluated in a forked child (a compiled loop with a wrong index expression writes outside its buffer:
+    the harness itself must survive that).  -> ('ok', array) | ('raised', 'Type: msg') | ('crashed', description)"""
+    import pickle, signal
+    sys.stdout.flush(); sys.stderr.flush()
+    r, w = os.pipe()
+    pid = os.fork()
+    if pid == 0:
+        code = 0
+        try:
+            os.close(r)
+            try:
+                os.dup2(os.open(os.devnull, os.O_WRONLY), 2)
+                res = ('ok', np.array(fn(*args), dtype=float))
+            except Exception as e:
+                res = ('raised', '%s: %s' % (type(e).__name__, e))
+            with os.fdopen(w, 'wb') as f:
+                pickle.dump(res, f)
+        except BaseException:
+            code = 3
+        finally:
+            os._exit(code)
+    os.close(w)
+    with os.fdopen(r, 'rb') as f:
+        data = f.read()
+    _, status = os.waitpid(pid, 0)
+    if os.WIFSIGNALED(status):
+        return ('crashed', 'killed by signal %d' % os.WTERMSIG(status))
+    if os.WEXITSTATUS(status) != 0 or not data:
+        return ('crashed', 'exit status %d' % os.WEXITSTATUS(status))
+    try:
+        return pickle.loads(data)
+    except Exception as e:
+        return ('crashed', 'unreadable result (%s)' % type(e).__name__)
+
 # ------------------------------------------------------------------ spying on scipy.integrate
 PROBE = 0.7311
 
@@ -815,7 +851,10 @@ def k_pdf_layout(chk, drv, dadi, which, xs, ys, params):
         if ii >= xs or jj >= ys:
             chk.k_bad('pdf:layout', inp, 'not run', 'model reads xx[%d] / yy[%d] outside the inputs' % (ii, jj), float('inf')); return
         want[k // ys, k % ys] = pt(xx[ii], yy[jj])
-    impl = np.asarray(f(xx, yy, params), dtype=float).reshape(xs, ys)
+    st, impl = isolated(f, xx, yy, params)
+    if st != 'ok' or impl.size != xs * ys:
+        chk.k_bad('pdf:layout', inp, '%s: %s' % (st, impl if st != 'ok' else 'shape %r' % (impl.shape,)), small(want), float('inf')); return
+    impl = impl.reshape(xs, ys)
     e = pdf_mismatch(impl, want)
     if e <= 1e-9: chk.k_ok('pdf:layout:%s' % ('square' if xs == ys else 'rect'))
     else: chk.k_bad('pdf:layout', inp, small(impl), small(want), e)
@@ -826,7 +865,7 @@ def k_pdf_dispatch(chk, drv, dadi, which, L, rng):
     f, fpy = (P.biv_ind_gamma, P.biv_ind_gamma_py) if which == 'g' else (P.biv_lognormal, P.biv_lognormal_py)
     if which == 'g': params = [float(r3(rng.uniform(0.4, 2.5))) for _ in range(L)]
     else: params = [float(r3(rng.uniform(0.3, 0.9))) for _ in range(L)]
-    xx = np.array([0.3, 1.7, 4.0]); yy = np.array([0.6, 2.2])
+    xx = np.array([0.3, 1.7]); yy = np.array([0.6, 2.2])
     inp = dict(op='PDFs.%s(dispatch)' % f.__name__, params=params, xx=xx.tolist(), yy=yy.tolist())
     for side, fn in (('c', f), ('py', fpy)):
         out = drv.ask('c17.pdfdispatch %s_%s %d' % (side, which, L))
@@ -834,10 +873,11 @@ def k_pdf_dispatch(chk, drv, dadi, which, L, rng):
             chk.k_bad('pdf:dispatch', inp, side, out, float('inf')); continue
         handled, items = out[3:].split(' ')
         tab = dict(it.split('=') for it in items.split(','))
-        try:
-            got = np.asarray(fn(xx, yy, params), dtype=float); raised = None
-        except ValueError:
-            got = None; raised = 'ValueError'
+        st, got = isolated(fn, xx, yy, params)
+        raised = None
+        if st == 'raised' and got.startswith('ValueError'): got = None; raised = 'ValueError'
+        elif st != 'ok':
+            chk.k_bad('pdf:dispatch', dict(inp, side=side), '%s: %s' % (st, got), out, float('inf')); continue
         if handled == '0':
             # reference: must raise; compiled: leaves its variables at 0 -> not a density (nan, inf or 0 everywhere)
             okk = (raised is not None) if side == 'py' else (got is not None and not np.any(np.isfinite(got) & (got > 0)))
@@ -1240,8 +1280,11 @@ def o_mix(chk, dadi, inp):
     try:
         if kind == 'mix':
             params = list(sh) + [rho, p2d]
-            exp = (1 - p2d) * data_of(s1.integrate(sh, None, sd1, theta, None)) + p2d * data_of(s2.integrate(list(sh) + [rho], None, sd2, theta, None))
-            call = lambda: M.mixture(params, None, s1, s2, sd1, sd2, theta, None)
+            ext = bool(inp.get('exterior_int', True))
+            exp = (1 - p2d) * data_of(s1.integrate(sh, None, sd1, theta, None, exterior_int=ext)) + \
+                p2d * data_of(s2.integrate(list(sh) + [rho], None, sd2, theta, None, exterior_int=ext))
+            call = (lambda: M.mixture(params, None, s1, s2, sd1, sd2, theta, None, ext)) if 'exterior_int' in inp else \
+                (lambda: M.mixture(params, None, s1, s2, sd1, sd2, theta, None))
         elif kind == 'mixsym':
             pp, g = inp['point'][:2]
             params = list(sh) + [rho, pp, g, p2d]
@@ -1257,7 +1300,7 @@ def o_mix(chk, dadi, inp):
     except Exception as e:
         chk.notes.append('o_mix: component raised %r on %r' % (e, inp)); return
     fname = MIX[kind][0]
-    chk.l3(('mix', kind, p2d in (0.0, 1.0), rho == 0))
+    chk.l3(('mix', kind, p2d in (0.0, 1.0), rho == 0, inp.get('exterior_int')))
     try:
         got = data_of(call())
     except Exception as e:
@@ -1440,10 +1483,12 @@ def o_pdf(chk, dadi, inp):
     ref = (ref_biv_lognormal if name == 'biv_lognormal' else ref_biv_ind_gamma)(base, basey, params)
     chk.l3(('pdf', name, len(params), layout))
     chk.stat('pdf:%s:%s' % (name, layout))
-    try:
-        got = np.asarray(f(xx, yy, params), dtype=float)
-    except Exception as e:
-        chk.fail('PDFs.%s:raises:%s' % (name, type(e).__name__), '%s: %s' % (type(e).__name__, e), inp); return
+    st, got = isolated(f, xx, yy, params)
+    if st == 'raised':
+        chk.fail('PDFs.%s:raises:%s' % (name, got.split(':')[0]), got, inp); return
+    if st == 'crashed':
+        chk.fail('PDFs.%s:crash' % name, 'the compiled %s did not survive a %d x %d grid (%s): it writes outside its buffers'
+                 % (name, np.size(xx), np.size(yy), got), inp); return
     got = got.reshape(ref.shape) if got.size == ref.size else got
     tol = 1e-10 if name == 'biv_lognormal' else 1e-9
     e = pdf_mismatch(got, ref)
@@ -1476,10 +1521,12 @@ def o_pdf_ref(chk, dadi, inp):
         ref = np.asarray(fpy(xx, yy, params), dtype=float)
     except Exception as e:
         chk.notes.append('o_pdf_ref: reference raised %r on %r' % (e, inp)); return
-    try:
-        got = np.asarray(f(xx, yy, params), dtype=float)
-    except Exception as e:
-        chk.fail('PDFs.%s:raises:%s' % (name, type(e).__name__), '%s: %s' % (type(e).__name__, e), inp); return
+    st, got = isolated(f, xx, yy, params)
+    if st == 'raised':
+        chk.fail('PDFs.%s:raises:%s' % (name, got.split(':')[0]), got, inp); return
+    if st == 'crashed':
+        chk.fail('PDFs.%s:crash' % name, 'the compiled %s did not survive a %d x %d grid (%s): it writes outside its buffers'
+                 % (name, len(xx), len(yy), got), inp); return
     if got.shape != ref.shape:
         chk.fail('PDFs.%s:shape' % name, 'compiled result has shape %r, the reference %r' % (got.shape, ref.shape), inp); return
     e = pdf_mismatch(np.atleast_2d(got), np.atleast_2d(ref))
@@ -1694,7 +1741,8 @@ def run(chk, ctx):
             else: n1, n2, shared = 'gamma', 'biv_ind_gamma', [r3(rng.uniform(0.4, 2.5)), r3(10 ** rng.uniform(0, 2))]
             sel1 = pdf_by_name(dadi, n1); sel2 = pdf_by_name(dadi, n2)
             rho = float(rng.choice([0.0, r3(rng.uniform(-0.9, 0.9))])); p2d = float(rng.choice([0.0, 1.0, r3(rng.uniform(0, 1))]))
-            k_mixfull(chk, drv, dadi, s1, s2, n1, sel1, n2, sel2, shared, rho, p2d, rnd_theta(rng), bool(rep % 4 < 2 or thorough and rng.random() < 0.5))
+            k_mixfull(chk, drv, dadi, s1, s2, n1, sel1, n2, sel2, shared, rho, p2d, rnd_theta(rng), True)
+            k_mixfull(chk, drv, dadi, s1, s2, n1, sel1, n2, sel2, shared, rho, p2d, rnd_theta(rng), False)
             pt = (r3(rng.uniform(0, 0.4)), gp if rng.random() < 0.9 else 7.77, r3(rng.uniform(0, 0.4)), gp2)
             k_mixptfull(chk, drv, dadi, s1, s2, n1, sel1, n2, sel2, shared, rho, pt, p2d, rnd_theta(rng), False)
             k_mixptfull(chk, drv, dadi, s1, s2, n1, sel1, n2, sel2, shared, rho, pt, p2d, rnd_theta(rng), True)
@@ -1806,6 +1854,7 @@ def run(chk, ctx):
         rho = float(rng.choice([0.0, r3(rng.uniform(-0.9, 0.9))])); p2d = float(rng.choice([0.0, 1.0, r3(rng.uniform(0, 1))]))
         base = dict(cache1=sp1, cache2=sp2, pdf1='lognormal', pdf2='biv_lognormal', shared=shared, rho=rho, p2d=p2d)
         oracle(chk, dadi, 'mix', dict(base, kind='mix', theta=rnd_theta(rng)))
+        oracle(chk, dadi, 'mix', dict(base, kind='mix', theta=rnd_theta(rng), exterior_int=bool(rep % 2)))
         oracle(chk, dadi, 'mix', dict(base, kind='mixsym', theta=rnd_theta(rng), point=[r3(rng.uniform(0, 0.4)), gp]))
         oracle(chk, dadi, 'mix', dict(base, kind='mixpt', theta=rnd_theta(rng), point=[r3(rng.uniform(0, 0.4)), gp, r3(rng.uniform(0, 0.4)), gp2]))
         oracle(chk, dadi, 'vourlaki', dict(cache1=spec_cache('1d', 'demo1', sp1['p0'], sp1['ns'], sp1['bounds'], sp1['n'], []), cache2=sp2,
